@@ -30,3 +30,56 @@ class Recorder(Entity):
 def mk_event(t_ns, label, target, daemon=False):
     return Event(time=Instant(t_ns), event_type=label, target=target, daemon=daemon,
                  context={"metadata": {"label": label}})
+
+
+class SpinDetected(Exception):
+    pass
+
+
+class Monitor:
+    """C07 monitor attached to a Simulation: (a) every event pushed on the heap during
+    the run must carry a timestamp >= the clock at push time; (b) no single simulated
+    instant may see more than ``cap`` deliveries (a finite workload whose clock stops
+    advancing is a spin).  Attaching uses only public hooks plus a wrapper around the
+    heap's push method; behaviour of the run is unchanged (see C04)."""
+
+    def __init__(self, sim, cap):
+        self.sim = sim
+        self.cap = cap
+        self.stale = []          # (event type, event ns, clock ns)
+        self.per_instant = 0
+        self.instant = None
+        self.max_per_instant = 0
+        self.deliveries = 0
+        self.spun = False
+        heap = sim._event_heap
+        orig = heap._push_single
+        mon = self
+
+        def _push_single(event):
+            if sim._is_running and event.time < sim._clock.now:
+                mon.stale.append((event.event_type, event.time.nanoseconds, sim._clock.now.nanoseconds))
+            return orig(event)
+
+        heap._push_single = _push_single
+        sim.control.on_event(self._on_event)
+
+    def _on_event(self, event):
+        self.deliveries += 1
+        t = self.sim._clock.now.nanoseconds
+        if self.instant is not None and t == self.instant:
+            self.per_instant += 1
+        else:
+            self.instant = t
+            self.per_instant = 1
+        if self.per_instant > self.max_per_instant:
+            self.max_per_instant = self.per_instant
+        if self.per_instant > self.cap:
+            self.spun = True
+            raise SpinDetected(f"{self.per_instant} deliveries at t={t}ns")
+
+    def judge(self, r, tag):
+        if self.spun:
+            r.bad("no_spin_at_frozen_clock", tag, self.per_instant, self.instant)
+        if self.stale:
+            r.bad("no_event_into_the_past", tag, self.stale[:3])
